@@ -297,6 +297,93 @@ impl Gen for Reuse {
     }
 }
 
+/// zero-width items: unit values and records without fields in arrays, maps and options
+#[derive(Debug, Serialize, Deserialize, AvroSchema, Clone, PartialEq)]
+pub struct Nothing {}
+impl Gen for Nothing {
+    fn gen_value(_r: &mut Rng, _d: u32) -> Self {
+        Nothing {}
+    }
+}
+#[derive(Debug, Serialize, Deserialize, AvroSchema, Clone, PartialEq)]
+pub struct Units {
+    before: i32,
+    units: Vec<()>,
+    empties: Vec<Nothing>,
+    by_key: HashMap<String, Nothing>,
+    maybe: Option<Nothing>,
+    after: String,
+}
+impl Gen for Units {
+    fn gen_value(r: &mut Rng, _d: u32) -> Self {
+        let a = r.len();
+        let b = r.len();
+        let c = r.len().min(3);
+        Units {
+            before: r.i64() as i32,
+            units: vec![(); a],
+            empties: vec![Nothing {}; b],
+            by_key: (0..c).map(|i| (format!("k{i}"), Nothing {})).collect(),
+            maybe: if r.below(2) == 0 { None } else { Some(Nothing {}) },
+            after: r.string(),
+        }
+    }
+}
+
+/// a record with exactly one field, for 1-tuples and 1-arrays (which are transparent)
+#[derive(Debug, Serialize, Deserialize, AvroSchema, Clone, PartialEq)]
+pub struct Single {
+    only: i64,
+}
+impl Gen for Single {
+    fn gen_value(r: &mut Rng, _d: u32) -> Self {
+        Single { only: r.i64() }
+    }
+}
+#[derive(Debug, Serialize, Deserialize, AvroSchema, Clone, PartialEq)]
+pub struct Link {
+    next: Option<Box<Link>>,
+}
+impl Gen for Link {
+    fn gen_value(r: &mut Rng, d: u32) -> Self {
+        Link { next: if d >= 4 || r.below(3) == 0 { None } else { Some(Box::new(Link::gen_value(r, d + 1))) } }
+    }
+}
+impl<T: Gen> Gen for (T,) {
+    fn gen_value(r: &mut Rng, d: u32) -> Self {
+        (T::gen_value(r, d),)
+    }
+}
+impl<A: Gen, B: Gen> Gen for (A, B) {
+    fn gen_value(r: &mut Rng, d: u32) -> Self {
+        (A::gen_value(r, d), B::gen_value(r, d))
+    }
+}
+impl<T: Gen> Gen for [T; 1] {
+    fn gen_value(r: &mut Rng, d: u32) -> Self {
+        [T::gen_value(r, d)]
+    }
+}
+impl<T: Gen> Gen for [T; 3] {
+    fn gen_value(r: &mut Rng, d: u32) -> Self {
+        [T::gen_value(r, d), T::gen_value(r, d), T::gen_value(r, d)]
+    }
+}
+impl<T: Gen> Gen for Vec<T> {
+    fn gen_value(r: &mut Rng, d: u32) -> Self {
+        let n = r.len().min(7);
+        (0..n).map(|_| T::gen_value(r, d)).collect()
+    }
+}
+impl Gen for () {
+    fn gen_value(_r: &mut Rng, _d: u32) -> Self {}
+}
+impl Gen for i32 {
+    fn gen_value(r: &mut Rng, _d: u32) -> Self {
+        r.i64() as i32
+    }
+}
+
 fn same_f<T: PartialEq + std::fmt::Debug>(a: &T, b: &T) -> bool {
     // NaN-free generators: PartialEq is enough
     a == b
@@ -437,6 +524,16 @@ pub fn serde_case(a: &[Sexp]) -> Sexp {
         "two-shapes" => run_type::<TwoShapes>(seed, bs),
         "opt-shape" => run_type::<OptShape>(seed, bs),
         "reuse" => run_type::<Reuse>(seed, bs),
+        "units" => run_type::<Units>(seed, bs),
+        "vec-unit" => run_type::<Vec<()>>(seed, bs),
+        "vec-nothing" => run_type::<Vec<Nothing>>(seed, bs),
+        "one-tuple-single" => run_type::<(Single,)>(seed, bs),
+        "one-array-single" => run_type::<[Single; 1]>(seed, bs),
+        "one-tuple-link" => run_type::<(Link,)>(seed, bs),
+        "one-tuple-inner" => run_type::<(Inner,)>(seed, bs),
+        "pair" => run_type::<(Inner, Suit)>(seed, bs),
+        "array3" => run_type::<[Single; 3]>(seed, bs),
+        "one-tuple-int" => run_type::<(i32,)>(seed, bs),
         _ => Sexp::tag("bad-case", vec![]),
     }
 }
